@@ -1,16 +1,20 @@
 """C03 — merging duplicates never changes a function."""
 from checks import genjobs
+from vlib import deductive as D
+from contracts import c_utils
 
 META = {
-    "level": "exploration",
-    "text": "Bounded stand-in on the real generation code: for every function of the generated libraries (six shipped bases, random sub-bases through the "
+    "level": "other",
+    "text": "Deductive (unbounded): utils.get_unique_indexes (keys = the distinct values, each once; result[v] an index holding v; match[v] = position of v among the "
+            "keys) and utils.get_match_indexes (result[k] indexes an element of a equal to b[k]; no KeyError when b is contained in a) are verified from their AST with "
+            "loop invariants and a ghost witness function. Bounded stand-in on the real generation code (not counted as proved): for every function of the generated libraries (six shipped bases, random sub-bases through the "
             "ESR_VERIF hook) the recorded chain of substitutions, composed as convert_params/check_results compose it and parsed by an independent reader, "
             "maps the unique function's parameters to parameters at which the function equals its unique pointwise (5 generic points, mpmath); "
             "'nan' entries only where the unique has strictly fewer parameters; uniques pairwise distinct, parameters without gaps; all per-function "
-            "files have one line per function. The bookkeeping contracts (get_unique_indexes, get_match_indexes, do_sympy propagation) planned as "
-            "deductive are not discharged yet.",
+            "files have one line per function. The propagation through do_sympy / duplicate_checker.main and the per-step contract of sympy_simplify are "
+            "covered by the bounded part only.",
     "note": "Bounded by complexity and bases listed in the evidence; numeric oracle independent of sympy simplification. A-sympy for parsing only.",
-    "technique": "bounded stand-in of the library contract (numeric check of every match and map) on the real code; deductive part pending",
+    "technique": "contract-based deductive verification of the index bookkeeping (AST->VC->SMT) + bounded stand-in of the library contract on the real code",
 }
 CHECKER = "./bin/check C03"
 
@@ -30,9 +34,20 @@ def report(run, res, mode="c03"):
 
 def check(run):
     tier = run.tier
+    failed_all = []
+    for qual, mk in (("get_unique_indexes", c_utils.get_unique_indexes_contract), ("get_match_indexes", c_utils.get_match_indexes_contract)):
+        st, failed, eng = D.verify_function(run, "generation/utils.py", qual, mk, timeout_ms=8000)
+        failed_all += failed
+    if D.canary(run, "generation/utils.py", "get_unique_indexes", c_utils.get_unique_indexes_contract) is False:
+        raise RuntimeError("canary verified: engine vacuous on get_unique_indexes")
+    run.trust("pyvc", "z3 5.1.0")
+    run.assume("A-str: strings are abstract labels with equality", "A-ext: OrderedDict / set / dict comprehension models of pyvc (insertion order, membership)")
     groups = genjobs.job_groups(tier, run.seed, per_lib_sample=2500 if tier == "quick" else None)
     root, res = genjobs.run_groups(run, "c03", groups)
     report(run, res)
     run.sample({"libraries": [[g[0]["runname"], g[-1]["n"]] for g in groups]})
-    return run.finish("exploration", META["text"], CHECKER,
+    if failed_all and not run.violations:
+        from checks.C14 import report_unproved
+        report_unproved(run, failed_all, False, failed_all[0].fn)
+    return run.finish("other", META["text"], CHECKER,
                       rule="cases = functions whose match/map was checked; distinct_nontrivial = functions with a non-empty recorded map")
